@@ -253,4 +253,65 @@ def handleSym (op : String) (j : Json) : Except String Json := do
 
 end Driver.HSym
 
-def Driver.handleSym := Driver.HSym.handleSym
+/-! ## `sym.run_restore` — a history, then every reader on the store it produces (C14 history-level theorems)
+
+Same request as `sym.run` (client views are not accepted here).  The history is executed with `runT`, i.e. together with the
+record of what every snapshot command captured (`Taken`) and the admissibility `opOk` of every command (`wfHist`); then for
+every snapshot taken and every key of the history: what `_load_snapshots` by the snapshot's name yields (`loadBodies`) and what
+`restore` writes (`restoreMd`: path, parts, metadata record).  `recorded` is the right-hand side of `C14.restore_after_run`. -/
+namespace Driver.HSym
+
+def restoredJson (out : List Sym.Restored) : Json :=
+  Json.arr (out.map (fun w => Json.mkObj [("path", termJson w.1), ("parts", partsJson w.2.1), ("md", termJson w.2.2)])).toArray
+
+def bodiesJson (bs : List (List STerm × Option Sym.Data)) : Json :=
+  Json.arr (bs.map (fun b => Json.mkObj [("table", Json.arr (b.1.map termJson).toArray), ("has_data", Json.bool b.2.isSome)])).toArray
+
+def handleSymHist (op : String) (j : Json) : Except String Json := do
+  match op with
+  | "sym.run_restore" =>
+    let i ← j.getObjVal? "init"
+    let a : InitArgs := ⟨← getBool i "encrypted", ← getTerm i "cfg", ← getTerm i "kdfcfg", ← getTerm i "shcfg", ← getTerm i "pw"⟩
+    let (st, bad, _) ← (← getArr j "ops").toList.foldlM (init := ((initSt a, ([] : List Taken)), ([] : List Nat), 0))
+      fun (acc : (St × List Taken) × List Nat × Nat) oj => do
+        let ((s, ts), bad, k) := acc
+        let op ← match (← getStr oj "kind") with
+          | "remove_at" => do
+            let idx ← getNatList oj "idx"
+            let ups := s.log.filter (fun e => match e.1 with | .pair pre _ => pre != prefixKey | _ => true)
+            pure (Op.remove (idx.filterMap (fun i => ups[i]?.map (·.1))))
+          | _ => do
+            match oj.getObjVal? "view" with
+            | .ok (Json.bool _) => throw "sym.run_restore does not take client views"
+            | _ => parseSymOp oj
+        pure (stepT (s, ts) op, if opOk s ts op then bad else bad ++ [k], k + 1)
+    let s := st.1
+    let ts := st.2
+    let log := s.log
+    let namesOk := log.all fun e1 => log.all fun e2 => e1.1 != e2.1 || sameUpToNonce e1.2 e2.2
+    let storeNodup := nodupB (s.store.map (·.1))
+    let snaps := ts.map fun t =>
+      let present := (lookup s.store t.loc).isSome
+      let by_ := s.users.map fun u =>
+        let q := u.props s.encrypted
+        let bodies := match loadBodies q t.name (snapEntries s.store) with
+          | .ok bs => bodiesJson bs
+          | .error e => symErrJson e
+        let rest := match restoreMd q s.store t.name with
+          | .ok out => Json.mkObj [("outcome", Json.str "ok"), ("files", restoredJson out)]
+          | .error e => Json.mkObj [("outcome", Json.str "error"), ("error", symErrJson e)]
+        Json.mkObj [("bodies", bodies), ("restore", rest), ("same_family", Json.bool (u.sh == t.p.sh))]
+      Json.mkObj [("user", jnat t.user), ("present", Json.bool present), ("table", Json.arr (t.table.map termJson).toArray),
+                  ("recorded", match recordedFiles t.contents t.data.files with | some out => restoredJson out | none => Json.null),
+                  ("as_recorded", Json.bool (match recordedFiles t.contents t.data.files, restoreMd t.p s.store t.name with
+                    | some out, .ok out' => out == out'
+                    | _, _ => false)),
+                  ("by", Json.arr by_.toArray)]
+    pure (Json.mkObj [("wf", Json.bool bad.isEmpty), ("bad_ops", Json.arr (bad.map jnat).toArray), ("users", jnat s.users.length),
+                      ("names_unique", Json.bool namesOk), ("store_is_map", Json.bool storeNodup),
+                      ("snaps", Json.arr snaps.toArray)])
+  | _ => handleSym op j
+
+end Driver.HSym
+
+def Driver.handleSym := Driver.HSym.handleSymHist
